@@ -9,6 +9,7 @@ import (
 	"time"
 
 	"github.com/d5/tengo/v2"
+	"github.com/d5/tengo/v2/stdlib"
 	tjson "github.com/d5/tengo/v2/stdlib/json"
 )
 
@@ -251,6 +252,29 @@ var Probes = []Probe{
 			_, err := sc.Compile()
 			if err == nil {
 				return true, "compiled without error"
+			}
+			return false, ""
+		}},
+	{ID: "C07-K1", Props: []string{"C07"}, Input: "times := import(\"times\"); times.sleep(1200 * times.millisecond)  with a 100 ms deadline", WhatFail: "RunContext returns only when the sleep is over: Abort is polled between instructions and a blocking standard-library call (times.sleep) does not observe it, so the delay after the deadline is as long as the script asked to sleep",
+		Run: func() (bool, string) {
+			sc := tengo.NewScript([]byte("times := import(\"times\")\ntimes.sleep(1200 * times.millisecond)\n"))
+			sc.SetImports(stdlib.GetModuleMap("times"))
+			c, err := sc.Compile()
+			if err != nil {
+				return false, ""
+			}
+			ctx, cancel := context.WithTimeout(context.Background(), 100*time.Millisecond)
+			defer cancel()
+			t0 := time.Now()
+			done := make(chan error, 1)
+			go func() { done <- c.RunContext(ctx) }()
+			select {
+			case <-done:
+			case <-time.After(10 * time.Second):
+				return true, "RunContext did not return within 10 s"
+			}
+			if d := time.Since(t0); d > 700*time.Millisecond {
+				return true, fmt.Sprintf("RunContext returned %d ms after the call (deadline 100 ms)", d.Milliseconds())
 			}
 			return false, ""
 		}},
